@@ -76,11 +76,25 @@ func c02Unit(name string, lvl int) core.Unit {
 			boundSet[i] = true
 		}
 		seenLetter := map[rune]bool{}
+		seenTok := map[string]bool{}
 		for _, i := range adm {
 			for _, c := range u.Strs[i] {
 				if (c >= 'a' && c <= 'z' || c >= 'A' && c <= 'Z') && !seenLetter[c] {
 					seenLetter[c] = true
 					boundSet[i] = true
+				}
+			}
+			// one bound per distinct (separator, single-letter identifier) pair: an identifier that
+			// is exactly "x", "X", "a" ... after '.', '-' or '+' may be routed to special syntax
+			s := u.Strs[i]
+			for k := 1; k < len(s); k++ {
+				c := s[k]
+				if (c >= 'a' && c <= 'z' || c >= 'A' && c <= 'Z') && strings.ContainsRune(".-+_~", rune(s[k-1])) && (k+1 == len(s) || strings.ContainsRune(".-+_~", rune(s[k+1]))) {
+					key := s[k-1 : k+1]
+					if !seenTok[key] {
+						seenTok[key] = true
+						boundSet[i] = true
+					}
 				}
 			}
 		}
